@@ -37,9 +37,12 @@ var upstreams = []string{"alpha", "beta", "gamma"}
 var instances = []string{"gw-a", "gw-b", "gw-c", "10.0.0.1:443"}
 
 func cluster(name string) *proxyv1alpha1.UpstreamCluster {
+	// token-bucket schemas sit next to the in-flight ones: the cleanup walks all flow controls of an upstream
 	return limbox.Cluster(name,
 		limbox.GlobalSchema("alloc", proxyv1alpha1.GlobalAllocateLimit, false, 2, 100, 0, 0),
-		limbox.GlobalSchema("count", proxyv1alpha1.GlobalCountLimit, false, 2, gmax, 0, 0))
+		limbox.GlobalSchema("tb1", proxyv1alpha1.GlobalCountLimit, true, 5, 50, 5, 60),
+		limbox.GlobalSchema("count", proxyv1alpha1.GlobalCountLimit, false, 2, gmax, 0, 0),
+		limbox.GlobalSchema("tb2", proxyv1alpha1.GlobalAllocateLimit, true, 5, 50, 5, 60))
 }
 
 var detailRe = regexp.MustCompile(`\[([^\]]+): (-?\d+)\]`)
